@@ -1,1 +1,55 @@
-// placeholder
+//! C07 — keep-alive decision function (the connection's use of it is outside the claim: DESIGN.md C07).
+use crate::common::*;
+use crate::gen_tables::*;
+use insim::identifiers::RequestId;
+use insim::insim::{Tiny, TinyType};
+use insim::Packet;
+
+/// Every TINY (256 request ids x every sub-type declared in the source): a reply is produced iff
+/// sub-type NONE and request id 0, and the reply is exactly TINY_NONE with request id 0.
+#[kani::proof]
+#[kani::unwind(4)]
+#[kani::stub(alloc::fmt::format, stub_format)]
+fn c07_pong_every_tiny() {
+    let reqi: u8 = kani::any();
+    let si: usize = kani::any();
+    kani::assume(si < TINY_TYPE_COUNT);
+    let subt = tiny_type_by_index(si);
+    let is_none = matches!(subt, TinyType::None);
+    let t = Tiny { reqi: RequestId(reqi), subt };
+    assert!(t.is_keepalive() == (is_none && reqi == 0), "C07:is_keepalive iff TINY_NONE with request id 0");
+    let p = Packet::Tiny(t);
+    let r = p.maybe_pong();
+    match &r {
+        Some(Packet::Tiny(q)) => {
+            assert!(is_none && reqi == 0, "C07:reply only to TINY_NONE with request id 0");
+            assert!(q.reqi.0 == 0 && matches!(q.subt, TinyType::None), "C07:reply is TINY_NONE reqi 0");
+            kani::cover!(true, "keep-alive answered");
+        }
+        Some(_) => assert!(false, "C07:reply is a TINY"),
+        None => {
+            assert!(!(is_none && reqi == 0), "C07:keep-alive must be answered");
+            kani::cover!(is_none && reqi != 0, "TINY_NONE with non-zero request id not answered");
+            kani::cover!(!is_none && reqi == 0, "other sub-type with request id 0 not answered");
+        }
+    }
+    std::mem::forget(r);
+    std::mem::forget(p);
+}
+
+/// Every other packet kind (variant list generated from insim/src/packet.rs): never answered.
+#[kani::proof]
+#[kani::unwind(42)]
+#[kani::stub(alloc::fmt::format, stub_format)]
+#[kani::stub(std::hash::RandomState::new, stub_random_state)]
+fn c07_pong_other_kinds() {
+    let i: usize = kani::any();
+    kani::assume(i < PACKET_KIND_COUNT && i != TINY_INDEX);
+    let p = packet_default_by_index(i);
+    let r = p.maybe_pong();
+    let none = r.is_none();
+    std::mem::forget(r);
+    std::mem::forget(p);
+    assert!(none, "C07:no reply to any non-TINY packet");
+    kani::cover!(i == PACKET_KIND_COUNT - 1, "last kind reached");
+}
